@@ -277,3 +277,36 @@ func HarnessC18Prefix() {
 	got, ok := resolveStr(r, newIPContext(headerName, lines, "192.0.2.9:4000"))
 	sym.Assert(ok && got == base, "the result of a rightmost strategy is unaffected by anything placed to the left of the selected entry")
 }
+
+// HarnessC18Crash: no resolver panics on any header content; each returns an address or an error.
+func HarnessC18Crash() {
+	n := sym.Param("n")
+	useFwd := sym.Param("fwd") == 1
+	headerName := "X-Forwarded-For"
+	key := clientip.XForwardedForKey
+	if useFwd {
+		headerName = "Forwarded"
+		key = clientip.ForwardedKey
+	}
+	junk := sym.String("junk", n)
+	lines := []string{junk}
+	if sym.Bool("second") {
+		lines = append(lines, "10.0.0.1")
+	}
+	c := newIPContext(headerName, lines, "192.0.2.9:4000")
+	r0, _ := clientip.NewRightmostTrustedCount(key, 1)
+	r1, _ := clientip.NewRightmostNonPrivate(key)
+	r2, _ := clientip.NewRightmostTrustedRange(key, trustedRanges(mustRanges("10.0.0.0/8")))
+	r3, _ := clientip.NewLeftmostNonPrivate(key, 2)
+	check := func(r fox.ClientIPResolver, c fox.Context) {
+		ip, err := r.ClientIP(c)
+		sym.Assert((ip == nil) != (err == nil), "a resolver returns an address or an error, never both or neither")
+	}
+	for _, r := range []fox.ClientIPResolver{r0, r1, r2, r3} {
+		check(r, c)
+	}
+	single, _ := clientip.NewSingleIPHeader("X-Real-Ip")
+	check(single, newIPContext("X-Real-Ip", []string{junk}, junk))
+	check(clientip.NewRemoteAddr(), newIPContext("X-Real-Ip", nil, junk))
+	sym.Cover("arbitrary header content survived every resolver")
+}
